@@ -154,6 +154,10 @@ def regen_facts():
         rc, so, se = run([EXTRACT, REPO, td], timeout=300)
         if rc != 0:
             return False, "extractor failed: " + (so + se)[-2000:]
+        for fn in os.listdir(td):
+            if fn.endswith(".json"):
+                shutil.copyfile(os.path.join(td, fn), os.path.join(BUILD, fn))
+                os.remove(os.path.join(td, fn))
         new = sorted(os.listdir(td))
         for fn in os.listdir(gen):
             if fn not in new:
